@@ -165,7 +165,7 @@ func DefaultKeys(name string, a [][]byte) [][]byte {
 		return nil
 	case "del", "unlink", "exists":
 		return a
-	case "mset":
+	case "mset", "modq.mset":
 		var ks [][]byte
 		for i := 0; i < len(a); i += 2 {
 			ks = append(ks, a[i])
